@@ -155,6 +155,18 @@ func checkTrunc(c truncCase) error {
 	if lib.Id != orig.Id || lib.Rcode != orig.Rcode || lib.Opcode != orig.Opcode || lib.Response != orig.Response || len(lib.Question) != len(orig.Question) {
 		return pbt.Errf("Truncate(%d) changed header or question", c.Size)
 	}
+	// idempotence: truncating the result again to the same size changes nothing
+	again := lib.Copy()
+	again.Truncate(c.Size)
+	p2, err := again.Pack()
+	if err != nil || !bytes.Equal(p2, p) {
+		// (Compress may be switched off by the second call when the result now fits uncompressed)
+		again.Compress = lib.Compress
+		p2, err = again.Pack()
+	}
+	if err != nil || !bytes.Equal(p2, p) || again.Truncated != lib.Truncated {
+		return pbt.Errf("Truncate(%d) is not idempotent: second call changes the message (%d -> %d octets, TC %v -> %v, err=%v)", c.Size, len(p), len(p2), lib.Truncated, again.Truncated, err)
+	}
 	// (5) plain sub-domain: fits => nothing dropped; maximality
 	if c.Plain {
 		oc := orig.Copy()
